@@ -221,6 +221,7 @@ def main():
                         results.setdefault('failures', []).append(f)
                 results['n_eval'] = results.get('n_eval', 0) + gres.get('n_eval', 0)
                 results.setdefault('dist', {})['golden_histories_%d' % gseed] = len(now)
+                results['dist']['golden_with_recorded_verdict_%d' % gseed] = sum(1 for n_, (sh_, _) in now.items() if rec.get(n_, {}).get('sha') == sh_)
         except Exception as ex:
             traceback.print_exc()
             obl['run:golden'] = (False, repr(ex))
